@@ -31,6 +31,7 @@ const (
 	c23Inv
 	c23Limits
 	c23Reset
+	c23LimitsFrac // setLimits so that evicting ONE bucket suffices: maxSize = current size * 9/10 (soft = 80% of it)
 )
 
 type c23Op struct {
@@ -43,6 +44,7 @@ type c23Op struct {
 }
 
 type c23Scenario struct {
+	setup   []c23Op // executed sequentially by the main thread before the concurrent threads start
 	name    string
 	threads [][]c23Op
 	fails   bool // loader failures are explorer choices
@@ -53,6 +55,7 @@ func c23Scenarios(thorough bool) []c23Scenario {
 	I := func(ts ...int64) c23Op { return c23Op{kind: c23Inv, times: ts} }
 	L := func(n int) c23Op { return c23Op{kind: c23Limits, maxSize: n} }
 	R := c23Op{kind: c23Reset}
+	LF := c23Op{kind: c23LimitsFrac}
 	T := func(ops ...c23Op) []c23Op { return ops }
 	out := []c23Scenario{
 		{name: "whole chunk vs second half (awaiter offset)", threads: [][]c23Op{T(G(0, 0, 60)), T(G(0, 30, 60))}},
@@ -62,6 +65,10 @@ func c23Scenarios(thorough bool) []c23Scenario {
 		{name: "two gets and invalidate", threads: [][]c23Op{T(G(0, 0, 60)), T(G(0, 30, 60)), T(I(40))}},
 		{name: "invalidate then get vs get", threads: [][]c23Op{T(G(0, 0, 60), G(0, 20, 50)), T(I(10, 70), G(0, 0, 120))}},
 		{name: "two keys and reset", threads: [][]c23Op{T(G(0, 0, 60), G(0, 30, 60)), T(G(1, 0, 60)), T(R)}},
+		// three buckets A,B,C in list order, B least recently used; an invalidation pass racing with the
+		// eviction of the bucket it would visit next, then a request for the last bucket
+		{name: "invalidate pass vs eviction of the next bucket", setup: T(G(0, 0, 60), G(1, 0, 60), G(2, 0, 60), G(0, 0, 60), G(2, 0, 60)),
+			threads: [][]c23Op{T(I(10), G(2, 0, 60)), T(LF)}},
 		{name: "tiny limits then unlimited", threads: [][]c23Op{T(G(0, 0, 60), G(0, 0, 60)), T(L(1), L(0))}},
 		{name: "loader failures", fails: true, threads: [][]c23Op{T(G(0, 0, 60), G(0, 0, 60)), T(G(0, 30, 60))}},
 	}
@@ -106,8 +113,11 @@ func c23Run(x *mc.Exec, sc c23Scenario, rep *mc.Report) mc.Verdict {
 				return 0, fmt.Errorf("injected load failure")
 			}
 			key := 0
-			if q.cacheKey == "K1" {
+			switch q.cacheKey {
+			case "K1":
 				key = 1
+			case "K2":
+				key = 2
 			}
 			for i := range ret {
 				t := lod.FromSec + int64(i)*lod.StepSec
@@ -129,8 +139,95 @@ func c23Run(x *mc.Exec, sc c23Scenario, rep *mc.Report) mc.Verdict {
 			}
 		}
 		shard := c.shards[time.Second]
-		qs := []*queryBuilder{{cacheKey: "K0"}, {cacheKey: "K1"}}
+		qs := []*queryBuilder{{cacheKey: "K0"}, {cacheKey: "K1"}, {cacheKey: "K2"}}
 		var wg vsync.WaitGroup
+		runOp := func(name string, op c23Op) {
+			for once := true; once; once = false {
+				switch op.kind {
+				case c23Get:
+					from, to := w.base+op.from, w.base+op.to
+					// freshness requirement sampled when the request begins: for every slot whose
+					// chunk has no load in flight, all invalidations completed so far must be visible
+					need := map[int64]int{}
+					for t := from; t < to; t++ {
+						if w.invDone[t] == 0 {
+							continue
+						}
+						inflight := false
+						if b := shard.bucketM[qs[op.key].cacheKey]; b != nil {
+							for _, ch := range b.chunks {
+								if ch.start <= t*int64(time.Second) && t*int64(time.Second) < ch.end && ch.loading != 0 {
+									inflight = true
+								}
+							}
+						}
+						if !inflight {
+							need[t] = w.invDone[t]
+						}
+					}
+					lod := data_model.LOD{Version: Version6, StepSec: 1, FromSec: from, ToSec: to, Location: time.UTC}
+					data, err := c.Get(context.Background(), h, qs[op.key], lod, op.force)
+					if err != nil {
+						if !sc.fails {
+							fail("C23:get-failed-without-loader-failure", fmt.Sprintf("%s Get(%d..%d) failed: %v", name, op.from, op.to, err))
+						}
+						log = append(log, name+":get-err")
+						continue
+					}
+					if len(data) != int(to-from) {
+						fail("C23:wrong-length", fmt.Sprintf("%s Get(%d..%d) returned %d slots", name, op.from, op.to, len(data)))
+						continue
+					}
+					var srcs []string
+					for i := range data {
+						t := from + int64(i)
+						if len(data[i]) != 1 {
+							fail("C23:slot-row-count", fmt.Sprintf("%s Get(key %d, %d..%d): slot %d (second %d) holds %d rows, storage produced exactly 1", name, op.key, op.from, op.to, i, t-w.base, len(data[i])))
+							break
+						}
+						r := data[i][0]
+						if r.time != t || r.tag[0] != int64(op.key) {
+							fail("C23:misplaced-row", fmt.Sprintf("%s Get(key %d, %d..%d): slot %d holds the row of second %d key %d", name, op.key, op.from, op.to, i, r.time-w.base, r.tag[0]))
+							break
+						}
+						if v, ok := need[t]; ok && int(r.tag[1]) < v {
+							fail("C23:stale-after-invalidation", fmt.Sprintf("%s Get(key %d, %d..%d): second %d has version %d from load #%d although the invalidation of version %d completed before the request began and no load was in flight", name, op.key, op.from, op.to, t-w.base, r.tag[1], r.tag[2], v))
+							break
+						}
+						if i == 0 || data[i-1][0].tag[2] != r.tag[2] {
+							srcs = append(srcs, fmt.Sprintf("L%d", r.tag[2]))
+						}
+					}
+					log = append(log, fmt.Sprintf("%s:get(%d,%d..%d)<-%s", name, op.key, op.from, op.to, strings.Join(srcs, "+")))
+				case c23Inv:
+					var ts []int64
+					for _, o := range op.times {
+						w.version[w.base+o]++ // storage changes first ...
+						ts = append(ts, w.base+o)
+					}
+					c.invalidate(ts, 1) // ... then the cache is told
+					for _, o := range op.times {
+						w.invDone[w.base+o] = w.version[w.base+o]
+					}
+					log = append(log, name+":inv")
+				case c23Limits:
+					c.setLimits(cache2Limits{maxSize: op.maxSize})
+					log = append(log, fmt.Sprintf("%s:limits(%d)", name, op.maxSize))
+				case c23Reset:
+					c.reset()
+					log = append(log, name+":reset")
+				case c23LimitsFrac:
+					ri := c.runtimeInfo()
+					sz := ri.size()
+					c.setLimits(cache2Limits{maxSize: sz * 9 / 10})
+					log = append(log, name+":limits(90%)")
+				}
+
+			}
+		}
+		for _, op := range sc.setup {
+			runOp("setup", op)
+		}
 		for ti, prog := range sc.threads {
 			name := fmt.Sprintf("T%d", ti)
 			prog := prog
@@ -139,80 +236,7 @@ func c23Run(x *mc.Exec, sc c23Scenario, rep *mc.Report) mc.Verdict {
 				defer wg.Done()
 				for _, op := range prog {
 					vsched.Point("op")
-					switch op.kind {
-					case c23Get:
-						from, to := w.base+op.from, w.base+op.to
-						// freshness requirement sampled when the request begins: for every slot whose
-						// chunk has no load in flight, all invalidations completed so far must be visible
-						need := map[int64]int{}
-						for t := from; t < to; t++ {
-							if w.invDone[t] == 0 {
-								continue
-							}
-							inflight := false
-							if b := shard.bucketM[qs[op.key].cacheKey]; b != nil {
-								for _, ch := range b.chunks {
-									if ch.start <= t*int64(time.Second) && t*int64(time.Second) < ch.end && ch.loading != 0 {
-										inflight = true
-									}
-								}
-							}
-							if !inflight {
-								need[t] = w.invDone[t]
-							}
-						}
-						lod := data_model.LOD{Version: Version6, StepSec: 1, FromSec: from, ToSec: to, Location: time.UTC}
-						data, err := c.Get(context.Background(), h, qs[op.key], lod, op.force)
-						if err != nil {
-							if !sc.fails {
-								fail("C23:get-failed-without-loader-failure", fmt.Sprintf("%s Get(%d..%d) failed: %v", name, op.from, op.to, err))
-							}
-							log = append(log, name+":get-err")
-							continue
-						}
-						if len(data) != int(to-from) {
-							fail("C23:wrong-length", fmt.Sprintf("%s Get(%d..%d) returned %d slots", name, op.from, op.to, len(data)))
-							continue
-						}
-						var srcs []string
-						for i := range data {
-							t := from + int64(i)
-							if len(data[i]) != 1 {
-								fail("C23:slot-row-count", fmt.Sprintf("%s Get(key %d, %d..%d): slot %d (second %d) holds %d rows, storage produced exactly 1", name, op.key, op.from, op.to, i, t-w.base, len(data[i])))
-								break
-							}
-							r := data[i][0]
-							if r.time != t || r.tag[0] != int64(op.key) {
-								fail("C23:misplaced-row", fmt.Sprintf("%s Get(key %d, %d..%d): slot %d holds the row of second %d key %d", name, op.key, op.from, op.to, i, r.time-w.base, r.tag[0]))
-								break
-							}
-							if v, ok := need[t]; ok && int(r.tag[1]) < v {
-								fail("C23:stale-after-invalidation", fmt.Sprintf("%s Get(key %d, %d..%d): second %d has version %d from load #%d although the invalidation of version %d completed before the request began and no load was in flight", name, op.key, op.from, op.to, t-w.base, r.tag[1], r.tag[2], v))
-								break
-							}
-							if i == 0 || data[i-1][0].tag[2] != r.tag[2] {
-								srcs = append(srcs, fmt.Sprintf("L%d", r.tag[2]))
-							}
-						}
-						log = append(log, fmt.Sprintf("%s:get(%d,%d..%d)<-%s", name, op.key, op.from, op.to, strings.Join(srcs, "+")))
-					case c23Inv:
-						var ts []int64
-						for _, o := range op.times {
-							w.version[w.base+o]++ // storage changes first ...
-							ts = append(ts, w.base+o)
-						}
-						c.invalidate(ts, 1) // ... then the cache is told
-						for _, o := range op.times {
-							w.invDone[w.base+o] = w.version[w.base+o]
-						}
-						log = append(log, name+":inv")
-					case c23Limits:
-						c.setLimits(cache2Limits{maxSize: op.maxSize})
-						log = append(log, fmt.Sprintf("%s:limits(%d)", name, op.maxSize))
-					case c23Reset:
-						c.reset()
-						log = append(log, name+":reset")
-					}
+					runOp(name, op)
 				}
 			})
 		}
